@@ -25,7 +25,7 @@ type Profile struct {
 }
 
 func weighted(w map[string]int) []string {
-	order := []string{"resolve", "reserr", "state", "pick", "done", "adv", "failnew", "cancel", "allready", "bindflow", "decall", "readyrepl", "staledown", "emptypool", "saturate", "refreshcycle", "stalede", "affswap", "fbflow"}
+	order := []string{"resolve", "reserr", "state", "pick", "done", "adv", "failnew", "cancel", "allready", "bindflow", "decall", "readyrepl", "staledown", "emptypool", "saturate", "refreshcycle", "stalede", "affswap", "fbflow", "bindacross"}
 	var out []string
 	for _, k := range order {
 		for i := 0; i < w[k]; i++ {
@@ -184,6 +184,21 @@ func genStep(p *Profile, cfg *Config) *rapid.Generator[[]Op] {
 			}
 			ops = append(ops, Op{K: "state", Sel: 4, Key: key, St: 2}, Op{K: "pick", M: rapid.SampledFrom([]int{2, 2, 3}).Draw(t, "am"), Key: key})
 			return ops
+		case "bindacross":
+			// a BIND stays in flight while its channel is refreshed (through keyed deadline calls that follow it
+			// there), then completes; then the key is used
+			k2 := rapid.IntRange(0, 3).Draw(t, "k2")
+			k1 := rapid.IntRange(0, 3).Draw(t, "k1")
+			calls := cfg.UdCalls
+			if calls < 1 {
+				calls = 1
+			}
+			ops := []Op{{K: "pick", M: 1, Key: k2}, {K: "done", Idx: -1, Out: 0}, {K: "pick", M: 1, Key: k1}}
+			for j := 0; j < calls; j++ {
+				ops = append(ops, Op{K: "pick", M: 2, Key: k2, KeyOf: 1, DlMs: 1}, Op{K: "adv", Mode: 1, Idx: -1, Eps: 1}, Op{K: "done", Idx: -1, Out: 2})
+			}
+			ops = append(ops, Op{K: "state", Sel: 1, Idx: 0, St: 2}, Op{K: "done", Idx: -1, Out: 0}, Op{K: "pick", M: 2, Key: k1}, Op{K: "pick", M: 2, Key: k1})
+			return ops
 		case "fbflow":
 			// bind a key, take its home channel down, use the key repeatedly (stand-in), optionally disturb, use again
 			key := rapid.IntRange(0, 3).Draw(t, "fk")
@@ -210,6 +225,11 @@ func genStep(p *Profile, cfg *Config) *rapid.Generator[[]Op] {
 				}
 			}
 			ops = append(ops, Op{K: "pick", M: 2, Key: key}, Op{K: "pick", M: rapid.SampledFrom([]int{2, 3, 5}).Draw(t, "fm"), Key: key})
+			if rapid.IntRange(0, 2).Draw(t, "rebind") == 0 {
+				// unbind while on the stand-in, bind again, use the key
+				ops = append(ops, Op{K: "pick", M: 3, Key: key}, Op{K: "done", Idx: -1, Out: 0}, Op{K: "pick", M: 1, Key: key}, Op{K: "done", Idx: -1, Out: 0},
+					Op{K: "pick", M: 2, Key: key}, Op{K: "pick", M: 2, Key: key})
+			}
 			return ops
 		case "saturate":
 			n := rapid.IntRange(2, 8).Draw(t, "n")
@@ -286,7 +306,7 @@ var hostileMethods = []int{0, 1, 2, 3, 4, 5, 6, 7, 8, 9}
 // Profiles by name.
 var Profiles = map[string]*Profile{
 	"affinity": {Name: "affinity", Min: [2]int{1, 4}, Max: [2]int{1, 5}, WM: []int{1, 2, 3, 100}, Fallback: 30, UdMs: []int64{0, 7, 100}, UdCalls: []int{1, 1, 2}, Strict: 50, Shutdown: true,
-		W: map[string]int{"resolve": 1, "state": 8, "pick": 18, "done": 10, "adv": 2, "allready": 2, "bindflow": 10, "decall": 8, "readyrepl": 8, "staledown": 3, "affswap": 8, "fbflow": 2, "stalede": 1}, Methods: allMethods},
+		W: map[string]int{"resolve": 1, "state": 8, "pick": 18, "done": 10, "adv": 2, "allready": 2, "bindflow": 10, "decall": 8, "readyrepl": 8, "staledown": 3, "affswap": 8, "fbflow": 2, "stalede": 1, "bindacross": 6}, Methods: allMethods},
 	"load": {Name: "load", Min: [2]int{1, 5}, Max: [2]int{1, 5}, WM: []int{1, 2, 3, 4, 5}, Fallback: 20, UdMs: []int64{0, 7, 100}, UdCalls: []int{1, 2}, RR: 15, Strict: 50,
 		W: map[string]int{"resolve": 1, "state": 8, "pick": 25, "done": 22, "adv": 2, "allready": 3, "bindflow": 3, "decall": 6, "readyrepl": 6, "staledown": 3, "saturate": 3, "refreshcycle": 3, "stalede": 2}, Methods: []int{0, 0, 0, 0, 2, 2, 9, 1, 3}},
 	"size": {Name: "size", Wild: true, WM: []int{1}, Fallback: 10, UdMs: []int64{0, 7}, UdCalls: []int{1}, Strict: 50, Shutdown: true,
@@ -294,11 +314,11 @@ var Profiles = map[string]*Profile{
 	"states": {Name: "states", Min: [2]int{1, 4}, Max: [2]int{1, 5}, WM: []int{1, 2, 100}, Fallback: 30, UdMs: []int64{7, 100}, UdCalls: []int{1}, Strict: 50, Shutdown: true, Hostile: true,
 		W: map[string]int{"resolve": 1, "state": 30, "pick": 8, "done": 4, "adv": 1, "allready": 2, "decall": 8, "readyrepl": 8, "staledown": 4, "refreshcycle": 3}, Methods: allMethods},
 	"hostile": {Name: "hostile", Wild: true, WM: []int{1}, Fallback: 50, UdMs: []int64{0, 1, 7}, UdCalls: []int{0, 1}, RR: 25, Strict: 50, Shutdown: true, Hostile: true, CfgOps: true, NoFirst: 20,
-		W: map[string]int{"resolve": 4, "reserr": 1, "state": 12, "pick": 20, "done": 10, "adv": 2, "failnew": 3, "cancel": 2, "allready": 3, "bindflow": 4, "decall": 6, "readyrepl": 5, "staledown": 3, "emptypool": 1, "saturate": 2, "affswap": 3, "fbflow": 3, "refreshcycle": 2}, Methods: hostileMethods},
+		W: map[string]int{"resolve": 4, "reserr": 1, "state": 12, "pick": 20, "done": 10, "adv": 2, "failnew": 3, "cancel": 2, "allready": 3, "bindflow": 4, "decall": 6, "readyrepl": 5, "staledown": 3, "emptypool": 1, "saturate": 2, "affswap": 3, "fbflow": 3, "refreshcycle": 2, "bindacross": 2}, Methods: hostileMethods},
 	"detector": {Name: "detector", Min: [2]int{1, 3}, Max: [2]int{1, 3}, WM: []int{100, 100, 2}, UdMs: []int64{0, 1, 7, 100, 60000, 1 << 31, 1<<32 - 1}, UdCalls: []int{0, 1, 2, 3, 4}, Strict: 50, Shutdown: true,
 		W: map[string]int{"resolve": 1, "state": 5, "pick": 8, "done": 8, "adv": 4, "failnew": 3, "allready": 2, "decall": 24, "readyrepl": 10, "refreshcycle": 10, "stalede": 8}, Methods: []int{0, 0, 2, 1}},
 	"fallback": {Name: "fallback", Min: [2]int{2, 4}, Max: [2]int{2, 4}, WM: []int{1, 2, 3}, Fallback: 100, UdMs: []int64{0, 7, 100}, UdCalls: []int{1}, Strict: 50,
-		W: map[string]int{"resolve": 1, "state": 8, "pick": 20, "done": 6, "adv": 1, "allready": 3, "bindflow": 10, "decall": 5, "readyrepl": 6, "staledown": 6, "saturate": 2, "fbflow": 16, "affswap": 2}, Methods: []int{0, 2, 2, 2, 2, 5, 3, 1}},
+		W: map[string]int{"resolve": 1, "state": 8, "pick": 20, "done": 6, "adv": 1, "allready": 3, "bindflow": 10, "decall": 5, "readyrepl": 6, "staledown": 6, "saturate": 2, "fbflow": 16, "affswap": 2, "bindacross": 1}, Methods: []int{0, 2, 2, 2, 2, 5, 3, 1}},
 	"rr": {Name: "rr", Min: [2]int{1, 6}, Max: [2]int{1, 6}, WM: []int{1, 2, 100}, Fallback: 20, UdMs: []int64{0, 7, 100}, UdCalls: []int{1}, RR: 100, Strict: 50,
 		W: map[string]int{"resolve": 1, "state": 12, "pick": 30, "done": 8, "adv": 4, "cancel": 4, "allready": 3, "decall": 3, "readyrepl": 4, "staledown": 5, "saturate": 1}, Methods: []int{1, 1, 1, 1, 4, 0, 2}},
 	"addresses": {Name: "addresses", Min: [2]int{1, 3}, Max: [2]int{1, 4}, WM: []int{1, 2}, UdMs: []int64{7, 100}, UdCalls: []int{1}, Strict: 30, Shutdown: true,
